@@ -3,6 +3,7 @@ import DeltaModel.Sgr
 import DeltaModel.Term
 import DeltaModel.Style
 import DeltaModel.PaintLine
+import DeltaModel.BlameMeta
 /-!
 Model driver `drv_style` (C12, C09): answers the `style.*` requests of
 /repo/src/verif_hooks/style.rs from the Lean model (same dump formats; see that file).
@@ -378,4 +379,82 @@ def step (line : String) : String :=
 
 end DrvPaint
 
-def main : IO Unit := serve fun line => if line.startsWith "paint." then DrvPaint.step line else DrvStyle.step line
+/-!
+C09, session 4 (strengthening after seeded change C09-w6-09): `format_blame_metadata` and the blame row
+(`DeltaModel/BlameMeta.lean`).
+  blamemeta.format <hyperlinks 0|1> <stdout-is-terminal 0|1> <cw: cp:w;cp:w… | ->
+                   <field>×3 (time, author, commit), field = x<plain> <k> {P x<text> | L x<url> x<text>}*
+                   <n> {x<prefix> <label|-> <l|c|r|-> <width|-> <precision|-> x<suffix>}*
+     -> ok x<metadata> | PANIC | ERR x<why>
+  blamemeta.row x<metadata> <metadata ansi> <separator ansi> x<nr_prefix> x<number> x<nr_suffix> <repeat 0|1> <meta width> x<code>
+     -> ok x<row> | ERR x<why>
+-/
+namespace DrvBlameMeta
+open DrvStyle BlameMeta
+
+def parseCw (f : String) : Option (Char → Nat) :=
+  if f = "-" then some fun _ => 1
+  else do
+    let pairs ← (f.splitOn ";").mapM fun e => match e.splitOn ":" with
+      | [c, w] => match c.toNat?, w.toNat? with
+        | some c, some w => some (c, w)
+        | _, _ => none
+      | _ => none
+    pure fun ch => match pairs.find? fun p => p.1 = ch.toNat with
+      | some p => p.2
+      | none => 1
+
+def takePiece : List String → Option (Line.Piece × List String)
+  | "P" :: t :: r => (charsOfField t).map fun t => (.plain t, r)
+  | "L" :: u :: t :: r => do pure (.linked (← charsOfField u) (← charsOfField t), r)
+  | _ => none
+
+def takeField : List String → Option (FieldVal × List String)
+  | p :: rest => do
+    let plain ← charsOfField p
+    let (ps, rest) ← DrvPaint.takeCounted takePiece rest
+    pure (⟨plain, ps⟩, rest)
+  | [] => none
+
+def parseAlign (f : String) : Option (Option BlameMeta.Align) :=
+  if f = "-" then some none else if f = "l" then some (some .left) else if f = "c" then some (some .center)
+  else if f = "r" then some (some .right) else none
+
+def optNat (f : String) : Option (Option Nat) := if f = "-" then some none else f.toNat?.map some
+
+def takeItem : List String → Option (BlameMeta.Item × List String)
+  | pre :: lab :: al :: w :: p :: suf :: r => do
+    pure ({ pre := ← charsOfField pre, label := if lab = "-" then none else some lab, align := ← parseAlign al,
+            width := ← optNat w, prec := ← optNat p, suf := ← charsOfField suf }, r)
+  | _ => none
+
+def answer : Except String (List Char) → String
+  | .ok out => "ok " ++ hexOfChars out
+  | .error e => if e.startsWith "panic" then "PANIC" else "ERR " ++ hexOfString e
+
+def step (line : String) : String :=
+  match fields line with
+  | "blamemeta.format" :: hl :: tm :: cw :: rest =>
+    opt do
+      let env : Env := { hyperlinks := ← flag hl, stdoutIsTerminal := ← flag tm }
+      let cw ← parseCw cw
+      let (time, rest) ← takeField rest
+      let (author, rest) ← takeField rest
+      let (commit, rest) ← takeField rest
+      let (items, rest) ← DrvPaint.takeCounted takeItem rest
+      if rest ≠ [] then none
+      else pure (answer (formatMeta env cw items ⟨time, author, commit⟩))
+  | ["blamemeta.row", md, ms, ss, pre, num, suf, rep, mw, code] =>
+    opt do
+      let r : RowIn := { metaStyle := ← parseAnsiField ms, sepStyle := ← parseAnsiField ss, nrPrefix := ← charsOfField pre,
+                         number := ← charsOfField num, nrSuffix := ← charsOfField suf, isRepeat := ← flag rep,
+                         metaWidth := ← mw.toNat?, code := ← charsOfField code }
+      pure (answer (blameRow (← charsOfField md) r))
+  | _ => "ERR"
+
+end DrvBlameMeta
+
+def main : IO Unit := serve fun line =>
+  if line.startsWith "paint." then DrvPaint.step line
+  else if line.startsWith "blamemeta." then DrvBlameMeta.step line
+  else DrvStyle.step line
